@@ -128,6 +128,7 @@ class State:
         self.problems = []
         self.hist = ()
         self.touched = False  # a remove / replace happened
+        self.fc0 = _fc_digest(self)
 
     def sd(self, slot):
         return self.pool.grid[(slot, self.model.subs[slot])]
@@ -424,6 +425,21 @@ def _observe(st: State):
     return (subs, intfs, bgs)
 
 
+def _fc_digest(st: State):
+    """Bitwise digest of the face-cell maps handed to add_interface (purity oracle; the
+    maps are stored in the interface data, never documented as modified)."""
+    import hashlib
+
+    h = hashlib.blake2b(digest_size=12)
+    for n in sorted(st.pool.mortar):
+        M = st.pool.face_cells(n).copy().tocsc()  # canonical form: representation changes are fine
+        M.sum_duplicates()
+        M.sort_indices()
+        h.update(repr((n, M.shape)).encode())
+        h.update(M.data.astype(float).tobytes() + M.indices.tobytes() + M.indptr.tobytes())
+    return h.hexdigest()
+
+
 def _digest(st: State):
     """Shapes of the mortar projections: part of the abstract state (decides which later
     geometric updates are possible)."""
@@ -486,7 +502,12 @@ def run_case(case) -> Outcome:
                       container_left_inconsistent=P[:6], **base)
             o.ev("VIOLATION")
             return
+        o1 = _observe(st)
         P = _compare(st)
+        if not P and _observe(st) != o1:
+            P = ["the listing / navigation queries changed the container"]
+        if not P and _fc_digest(st) != st.fc0:
+            P = ["a face-cell map passed to add_interface was modified"]
         withi = "+intf" if st.model.intfs else ""
         if P:
             what = "container inconsistent with the reference model"
